@@ -189,7 +189,7 @@ where
 
 /// Verification hook (only with `--cfg similar_verif`): the entries of the
 /// table built for the given ranges, in key order (`None`: deadline exceeded).
-#[cfg(similar_verif)]
+#[cfg(all(similar_verif, not(similar_verif_no_internals)))]
 #[allow(clippy::type_complexity)]
 pub fn verif_make_table<Old, New>(
     old: &Old,
